@@ -22,7 +22,7 @@ META = {
                    "strict sub-term of itself. R04.rec: the only call-graph cycle is the walker's self-recursion on strict sub-terms.",
     "assumptions": ["dependencies do not panic on valid arguments (not analysed)", "stack depth is bounded by the property's nesting bound (<= 64)",
                     "overflow checks are analysed as enabled: every arithmetic site is enumerated, which covers builds without them"],
-    "floors": {"R04.sites": 80, "R04.loops": 40, "R04.rec": 1, "R04.stack": 1, "R04.asread": 1},
+    "floors": {"R04.sites": 30, "R04.scope": 60, "R04.loops": 40, "R04.rec": 1, "R04.stack": 1, "R04.asread": 1},
 }
 
 PANIC_CALLS = ("::unwrap", "::expect", "::unwrap_unchecked")
@@ -316,6 +316,10 @@ def run(ctx, crate):
     from rules import depend
     obs.append(depend.inherited(ctx, crate, "R04.asread", "analyze_dir x3", "the parser is given the file's content as read (C17's obligation on what the walks hand to the analysis)",
                                 "C17", lambda o: o.rule == "R17.asread", example="a file with bare carriage returns as line ends and a // comment inside a contract"))
+    # what was looked at: one line per body reachable from the entry points (the floor on these guards against an engine that stops seeing the code; the number of
+    # panic-capable sites itself is no such guard - a hardening commit legitimately removes them)
+    for b_ in reach.values():
+        obs.append(Ob("R04.scope", b_.path, "body reachable from analyze_for_*: every call and assert terminator inspected", True, nontrivial=False))
     ctx.analysed.setdefault("C04", {})[crate.ctype] = {"reachable_bodies": len(reach), "panic_capable_sites": n_sites, "justifications_used": len(used_j), "justifications": len(J)}
     for i, e in enumerate(J):
         if i not in used_j:
